@@ -335,7 +335,7 @@ def render_words(q, sp):
             k = sp.kw('left outer join') if sp.coin() else sp.kw('left join')
         else:
             k = sp.kw('strict left join')
-        c = k + [rng.choice(['b', 'B']) if not sp.canon else 'b'] + sp.kw('on')
+        c = k + [j['table'] if j.get('table') else (rng.choice(['b', 'B']) if not sp.canon else 'b')] + sp.kw('on')      # (a JOIN table with a name of its own: props/c08uni.py)
         for i, (x, y) in enumerate(j['pairs']):
             if i:
                 c += sp.kw('and')
@@ -784,6 +784,8 @@ def run(ctx):
     importlib.import_module('props.joinvars').run(ctx, THEOREM + ' ; C08_join_sides_swap (JoinVars.v)')
     # variable level: aN vs a[N], token boundaries, digits, record-number names (VarSpelling.v, entries 535-537)
     importlib.import_module('props.varspell').run(ctx)
+    # non-ASCII identifiers / table names outside literals, above all letters whose case mappings change the length of the text
+    importlib.import_module('props.c08uni').run(ctx)
     # recorded finding F5: a column named like a number captures the a[N] spelling in rbql-js (KNOWN-FINDING while it reproduces)
     importlib.import_module('props.numcols').run(ctx, THEOREM)
 
@@ -827,6 +829,8 @@ def replay(ctx, case):
         return __import__('importlib').import_module('props.numcols').replay(ctx, case, THEOREM)
     if case.get('part') == 'joinvars':
         return importlib.import_module('props.joinvars').replay(ctx, case, THEOREM)
+    if case.get('part') == 'c08uni':
+        return importlib.import_module('props.c08uni').replay(ctx, case)
     if case.get('part') == 'varspell':
         return importlib.import_module('props.varspell').replay(ctx, case)
     lang = case.get('lang', 'py')
